@@ -789,12 +789,13 @@ def truncate_raggedarray(ra, index):
     # FIXME allow for numpy ints
     if not isinstance(index, int):
         raise TypeError(f"'index' should be an int (is {type(index)})")
-    with ra._indices._open_array() as (mmap, _):
-        newlen = len(mmap[:index])
-    del mmap
     ra._values.check_arraywriteable()
     ra._indices.check_arraywriteable()
     ra._sync_arrayinfo()
+    # length that ra[:index] would have; not taken from the memory map, which
+    # may be held open by a context that was entered before the array was
+    # changed through another RaggedArray object
+    newlen = len(range(len(ra))[:index])
     if 0 <= newlen < len(ra):
         truncate_array(ra._indices, index=newlen)
         if newlen == 0:
